@@ -214,3 +214,47 @@ def bits_always_set(F, old_term, new_term):
         return always, others_same
     except Unknown:
         return None
+
+
+def r_flags_in_place(ctx):
+    """R06.4 / R07.6 — NodeFlags is `Copy`: `let mut f = node.flags; f.set_deleted(false);` changes a copy. Every flag mutator called in the
+    diagram modules on a local that was copied out of a node's `flags` field must be followed, on every path to the function's end, by
+    a write of that local back into a `flags` field (or the mutator is called on the field itself, the normal case)."""
+    F = ctx.F
+    n_calls = 0
+    for b in F.bodies.values():
+        if '::mdd::clean::' not in b.name and '::mdd::pooled::' not in b.name:
+            continue
+        for (bb, t) in b.calls():
+            c = t.get('callee') or ''
+            if 'node_flags::NodeFlags::' not in c or not (t.get('arg_tys') or [''])[0].startswith('&mut'):
+                continue
+            n_calls += 1
+            a0 = t['args'][0]
+            if not (isinstance(a0, dict) and 'place' in a0 and not a0['place']['p']):
+                continue
+            r = a0['place']['l']
+            defs = [s for bb2 in b.live_blocks() for s in b.stmts(bb2) if s['k'] == 'assign' and s['place']['l'] == r and not s['place']['p']]
+            if len(defs) != 1 or defs[0]['rv'].get('k') != 'ref' or defs[0]['rv']['place']['p']:
+                continue            # a borrow of a field place (node.flags) or something we do not follow: the in-place case
+            L = defs[0]['rv']['place']['l']
+            if 'NodeFlags' not in (b.local_ty(L) or '') or (b.local_ty(L) or '').startswith('&'):
+                continue
+            # L is a by-value NodeFlags local: was it copied out of a node?
+            ldefs = [(bb2, i, s) for bb2 in b.live_blocks() for (i, s) in enumerate(b.stmts(bb2)) if s['k'] == 'assign' and s['place']['l'] == L and not s['place']['p']]
+            copied = [x for x in ldefs if x[2]['rv'].get('k') == 'use' and 'place' in x[2]['rv']['op'] and any(isinstance(e, dict) and e.get('name') == 'flags' for e in x[2]['rv']['op']['place']['p'])]
+            if not copied:
+                continue            # built locally (NodeFlags::new_*): it is stored by whoever uses it
+            ctx.analysed_bodies.add(b.name)
+            cp = b.term_point(bb)
+            backs = [(bb2, i) for bb2 in b.live_blocks() for (i, s) in enumerate(b.stmts(bb2)) if s['k'] == 'assign' and s['place']['p'] and
+                     isinstance(s['place']['p'][-1], dict) and s['place']['p'][-1].get('name') == 'flags' and s['rv'].get('k') == 'use' and
+                     'place' in s['rv']['op'] and s['rv']['op']['place']['l'] == L and not s['rv']['op']['place']['p']]
+            reach = b.reach(b.after(cp), avoid=backs)
+            good = bool(backs) and not any(p in reach for p in ret_points(b))
+            for rid in ('R06.4', 'R07.6'):
+                ctx.check(good, rid, 'flags-mutated-in-place/%s@%s' % (c.split('::')[-1], b.fn_name or 'closure'), b, b.loc(bb),
+                          'a flag set copied out of a node is written back after being changed',
+                          '%s is called on a COPY of a node\'s flags (NodeFlags is Copy) that is never written back: the node keeps its old flags (e.g. a recycled node stays flagged deleted and disappears from the drawing)' % c.split('::')[-1])
+    ctx.check(n_calls >= 20, 'R06.4', 'flags-mutated-in-place/calls-found', None, '-', '%d flag mutator calls in the diagram modules inspected (all act on the field itself)' % n_calls,
+              'anchor missing: expected at least 20 NodeFlags mutator calls in the diagram modules, found %d' % n_calls)
